@@ -139,6 +139,46 @@ def script_consolidate(ex, canary=False):
         I.eq(anchor, first)))), 'T')
 
 
+def script_consolidate_mappings(ex):
+    """the mappings of the consolidated request: for every suffix the union
+    of the provider sets the input requests map it to (spec function U by
+    recursion over the requests; defaultdict(set) as a relation)"""
+    reg = registry()
+    reg['loops'].update(CC.MAP_LOOPS)
+    box = {}
+
+    def mk(I, a, k):
+        box['d'] = CC.PairSetDict(I)
+        return box['d']
+    reg['classes'][collections.defaultdict] = mk
+    I = Interp(ex, reg)
+    I.ghost['ctx'] = lib.CtxStub()
+    rw = I.fresh('rw_ctx', ('obj', CC.RWSC))
+    areqs = I.fresh_list('areq_list', ('obj', CC.AREQ))
+    for f in CC.consolidate_requires(I, areqs, rw):
+        ex.hyp(f) if ops_has_quant(f) else ex.assume(f)
+    try:
+        res = I.call(ac._consolidate_allocation_requests, [areqs, rw], {})
+    except PyRaise as pr:
+        ex.oblige('C02.T.cons.no_raise', False, 'T',
+                  {'raised': pr.exc.cls.__name__, 'args': repr(pr.exc.args)})
+        return
+    mp = I.read_field(res, 'mappings')
+    U = CC.union_fn(I, areqs)
+    s0, u0 = I.fresh('s0', 'str').t, I.fresh('u0', 'str').t
+    if not isinstance(mp, CC.PairSetDict):
+        # `mappings or dict()` replaced an empty defaultdict by a plain
+        # dict: that dict must hold the same relation
+        cell = z3.Select(box['d'].rel, sort_of(CC.PAIR).mk(s0, u0))
+        ex.oblige('C02.T.cons.mappings_are_the_union_of_the_groups_mappings',
+                  z3.And(cell == U(areqs.len, s0, u0),
+                         CC.in_mapping(I, res.ref, s0, u0) == cell), 'T')
+        return
+    ex.oblige('C02.T.cons.mappings_are_the_union_of_the_groups_mappings',
+              z3.Select(mp.rel, sort_of(CC.PAIR).mk(s0, u0)) ==
+              U(areqs.len, s0, u0), 'T')
+
+
 def ops_has_quant(f):
     from pyvc.interp import _has_quantifier
     return not isinstance(f, bool) and _has_quantifier(f)
@@ -221,15 +261,18 @@ def script_request_for_provider(ex):
     name = ctx.rc_cache.f_str
     if arr is not None:
         x = z3.Select(arr, q)
+        # witness form (implies "for every requested class there is a
+        # request ..."): the request for class rc0 sits at the position the
+        # enumeration of the dict gives rc0
+        enum = I._enum(req.dom, req.kty, 'requested', req)
+        rc0 = I.fresh('rc0', 'int').t
+        x0 = z3.Select(arr, enum.idx(rc0))
         ex.oblige('C02.T.request_for_provider.every_class_in_full',
-                  ops.forall([rc], z3.Implies(
-                      z3.Select(req.dom, rc),
-                      z3.Exists([q], z3.And(
-                          q >= 0, q < ln,
-                          z3.Select(f_rp, x) == prov.ref,
-                          z3.Select(f_rc, x) == name(rc),
-                          z3.Select(f_am, x) == z3.Select(req.val, rc))))),
-                  'T')
+                  z3.Implies(z3.Select(req.dom, rc0), z3.And(
+                      enum.idx(rc0) >= 0, enum.idx(rc0) < ln,
+                      z3.Select(f_rp, x0) == prov.ref,
+                      z3.Select(f_rc, x0) == name(rc0),
+                      z3.Select(f_am, x0) == z3.Select(req.val, rc0))), 'T')
         ex.oblige('C02.T.request_for_provider.nothing_else',
                   ops.forall([q], z3.Implies(
                       z3.And(q >= 0, q < ln),
@@ -239,12 +282,15 @@ def script_request_for_provider(ex):
                                  z3.Select(f_rc, x) == name(rc),
                                  z3.Select(f_am, x) ==
                                  z3.Select(req.val, rc)))))), 'T')
-        q2 = z3.Int('q2!rfp')
+        # for two arbitrary positions (fresh constants: the hypotheses are
+        # then instantiated at ground terms)
+        qa, qb = I.fresh('qa', 'int').t, I.fresh('qb', 'int').t
+        xa, xb = z3.Select(arr, qa), z3.Select(arr, qb)
         ex.oblige('C02.T.request_for_provider.one_request_per_class',
-                  ops.forall([q, q2], z3.Implies(
-                      z3.And(q >= 0, q < q2, q2 < ln),
-                      z3.Select(f_rc, z3.Select(arr, q)) !=
-                      z3.Select(f_rc, z3.Select(arr, q2)))), 'T')
+                  z3.Implies(z3.And(qa >= 0, qa < qb, qb < ln),
+                             z3.And(xa != xb,
+                                    z3.Select(f_rc, xa) != z3.Select(f_rc, xb))),
+                  'T')
     mp = I.read_field(res, 'mappings')
     if isinstance(mp, SMap) and mp.vty == ('set', 'str'):
         from pyvc.ops import to_term
@@ -352,13 +398,15 @@ def script_single_provider(ex):
         [j], z3.And(j >= 0, j < tuples.len,
                     p == z3.Select(I.fld(CC.PSUM, 'resource_provider'),
                                    z3.Select(sums.val, rp_id)))), 'T')
+    enum = I._enum(req.dom, req.kty, 'requested', req)
+    rc0 = I.fresh('rc0', 'int').t
+    x0 = z3.Select(ar, enum.idx(rc0))
     ex.oblige('C02.T.single.every_class_in_full_on_the_provider',
-              ops.forall([rc], z3.Implies(
-                  z3.Select(req.dom, rc),
-                  z3.Exists([q], z3.And(
-                      q >= 0, q < ln, z3.Select(f_rp, x) == p,
-                      z3.Select(f_rc, x) == name(rc),
-                      z3.Select(f_am, x) == z3.Select(req.val, rc))))), 'T')
+              z3.Implies(z3.Select(req.dom, rc0), z3.And(
+                  enum.idx(rc0) >= 0, enum.idx(rc0) < ln,
+                  z3.Select(f_rp, x0) == p,
+                  z3.Select(f_rc, x0) == name(rc0),
+                  z3.Select(f_am, x0) == z3.Select(req.val, rc0))), 'T')
     ex.oblige('C02.T.single.nothing_else',
               ops.forall([q], z3.Implies(
                   z3.And(q >= 0, q < ln),
@@ -409,6 +457,7 @@ def script_summaries(ex):
     root_ids = I.fresh_set('root_ids', 'int')
     prov_traits = I.fresh_map('prov_traits', 'int', ('list', 'str'))
     I.ghost['bps.pre'] = True
+    sums_entry = I.read_field(rw, 'summaries_by_id')
 
     # preconditions on the reader results are stated once they exist: use a
     # hook at loop entry
@@ -461,7 +510,14 @@ def script_summaries(ex):
                   {'raised': pr.exc.cls.__name__, 'args': repr(pr.exc.args)})
         return
     if 'rows' not in rows_box:
-        return          # no new roots: nothing to build
+        # nothing was read: allowed only when every root already has its
+        # summaries (no new root)
+        xr = z3.Int('x!bskip')
+        ex.oblige('C02.T.summaries.skipped_only_without_new_roots',
+                  ops.forall([xr], z3.Implies(z3.Select(root_ids.arr, xr),
+                                              z3.Select(sums_entry.dom, xr)),
+                             patterns=[z3.Select(root_ids.arr, xr)]), 'T')
+        return
     rows = rows_box['rows']
     psr_map = I.read_field(rw, 'psum_res_by_rp_rc')
     sum_map = I.read_field(rw, 'summaries_by_id')
@@ -564,6 +620,8 @@ def build(tier, seed):
     chk.script('consolidate', script_consolidate,
                ['placement/objects/allocation_candidate.py:_consolidate_allocation_requests',
                 'placement/objects/research_context.py:RequestWideSearchContext.copy_arr_if_needed'])
+    chk.script('consolidate_mappings', script_consolidate_mappings,
+               ['placement/objects/allocation_candidate.py:_consolidate_allocation_requests'])
     chk.script('exceeds_capacity', script_exceeds,
                ['placement/objects/research_context.py:RequestWideSearchContext.exceeds_capacity'])
     chk.script('request_for_provider', script_request_for_provider,
